@@ -115,6 +115,17 @@ pub fn record(a: &Args) {
     run!(i64, 1, maxd, 0, true); run!(BigInt, 2, maxd.min(4), big, false); run!(Ratio<i64>, 3, maxd.min(4), 0, true); run!(FF<3>, 4, maxd, 0, false); run!(FF<5>, 5, maxd, 0, false);
     run!(GaussInt<i64>, 6, maxd.min(4), 0, true); run!(GaussInt<BigInt>, 7, 3, big / 2, false); run!(EisenInt<i64>, 8, maxd.min(4), 0, true); run!(EisenInt<BigInt>, 9, 3, big / 2, false);
     run!(Poly<'x', FF<3>>, 10, 3, 0, false); run!(Poly<'x', Ratio<i64>>, 11, 3, 0, true);
+    // spec -> impl: TLC-enumerated small integer matrices, over Z (with the gcd-of-minors definition), Z[i] and F3
+    if let Some(pth) = &a.inp {
+        let mut rng = a.rng(31);
+        for ln in read_ndjson(pth) {
+            let (m, n) = (ln["m"].as_u64().unwrap() as usize, ln["n"].as_u64().unwrap() as usize);
+            let vals: Vec<i64> = ln["a"].as_array().unwrap().iter().flat_map(|r| r.as_array().unwrap().iter().map(|x| x.as_i64().unwrap())).collect();
+            cid += 1; st.cases += 1; run_matrix::<i64>(&mut rng, &mut t, &mut st, cid, &Mat::from_data((m, n), vals.iter().cloned()), true);
+            if cid % 5 == 0 { cid += 1; st.cases += 1; run_matrix::<GaussInt<i64>>(&mut rng, &mut t, &mut st, cid, &Mat::from_data((m, n), vals.iter().map(|x| <GaussInt<i64> as Ent>::of_int(*x))), true); }
+            if cid % 7 == 0 { cid += 1; st.cases += 1; run_matrix::<FF<3>>(&mut rng, &mut t, &mut st, cid, &Mat::from_data((m, n), vals.iter().map(|x| <FF<3> as Ent>::of_int(*x))), false); }
+        }
+    }
     let picks = if a.thorough() { 100000 } else { 40 };
     diag_family::<GaussInt<i64>>(a, 21, &mut t, &mut st, &mut cid, &|x, y| GaussInt::new(x, y), 4, picks);
     diag_family::<EisenInt<i64>>(a, 22, &mut t, &mut st, &mut cid, &|x, y| EisenInt::new(x, y), 4, picks);
